@@ -294,6 +294,49 @@ def combo_decls():
     return decls
 
 
+def sanitizer_order_decls():
+    """C02: string sanitizers in every order of (trim, a case mapping, a custom function that is sensitive to both): the
+    written order is the order of application - nothing is fused, hoisted or dropped."""
+    import itertools
+    decls = []
+    n = 0
+
+    def san(k, fn=""):
+        return {"k": k, "fn": fn, "p": []}
+    for case in ("lowercase", "uppercase"):
+        for size in (2, 3):
+            for perm in itertools.permutations([san("trim"), san(case), san("with", "tag_a")], size):
+                n += 1
+                decls.append({"id": "so%03d" % n, "fam": "string", "ty": "String", "san": list(perm), "vmode": "std",
+                              "val": [{"k": "not_empty", "b": 0, "fn": "", "p": [], "sp": "lit"}],
+                              "traits": ["Debug", "Clone", "PartialEq"], "dflt": [], "minimal_driver": True, "model_accepts": True,
+                              "spelling_text": ", ".join(x["k"] + (":" + x["fn"] if x["fn"] else "") for x in perm), "tag": "sanitizer_order",
+                              "cells": [(), (97,), (32, 97, 32), (65, 98, 32), (32, 65), (223,), (304, 32), (32, 32), (97, 32, 66), (0x1C5, 32), (8195, 97)]})
+    return decls
+
+
+def wide_integer_decls():
+    """C02: bounds at zero and at small values on the wide and pointer-sized integer types, each kind alone and in pairs."""
+    decls = []
+    n = 0
+
+    def rule(k, b):
+        return {"k": k, "b": b, "fn": "", "p": [], "sp": "lit"}
+    for ty in ("isize", "usize", "i128", "u128", "i64", "u64"):
+        lo, hi = INT_TYPES[ty]
+        for lower in (None, ("greater_or_equal", 0), ("greater", 0), ("greater_or_equal", 3)):
+            for upper in (None, ("less_or_equal", 9), ("less", 9)):
+                val = ([rule(*lower)] if lower else []) + ([rule(*upper)] if upper else [])
+                if not val:
+                    continue
+                n += 1
+                cells = sorted({x for x in (-10, -2, -1, 0, 1, 2, 3, 4, 8, 9, 10, 100, lo, lo + 1, hi - 1, hi) if lo <= x <= hi})
+                decls.append({"id": "wi%03d" % n, "fam": "int", "ty": ty, "src_ty": ty, "san": [], "vmode": "std", "val": val,
+                              "traits": ["Debug", "Clone", "PartialEq"], "dflt": [], "minimal_driver": True, "model_accepts": True,
+                              "spelling_text": "+".join("%s=%d" % (r["k"], r["b"]) for r in val), "tag": "wide_integer:" + ty, "cells": cells})
+    return decls
+
+
 def mixed_validation_rows(rows):
     """slice V of MC_Decl: validate(..) blocks that mix `with`/`error` with built-in validators. Such a block cannot be honoured
     (one error type, two rule sets): C02 demands rejection. -> {id: surface src}"""
@@ -319,7 +362,8 @@ def check_C02():
         raise ToolError("MC_Bound emitted no spellings")
     from .props_decl import mc_decl_rows
     rd, rows = mc_decl_rows()
-    decls = spelling_decls(spells) + layout_decls(rows) + closure_form_decls() + combo_decls() + float_literal_decls()
+    decls = (spelling_decls(spells) + layout_decls(rows) + closure_form_decls() + combo_decls() + float_literal_decls()
+             + sanitizer_order_decls() + wide_integer_decls())
 
     def rows_of(d):
         ep = "try_new" if d["vmode"] != "none" else "new"
